@@ -2,7 +2,7 @@ SPECIFICATION Spec
 CONSTANTS
   SharedField = "none"
   NReqs = 2
-  MaxSwitches = 3
-  Mode = "good"
+  MaxSwitches = 2
+  Mode = "mixed"
 POSTCONDITION Written
 CHECK_DEADLOCK FALSE
